@@ -158,6 +158,21 @@ theorem C02_pointsForX_spec (h4 : c.p % 4 = 3) (x : Int) (hα : alphaOf c x ≠ 
       pointsForX c x = .error .noSuchPoint ∧ ∀ y : Int, containsXY c x y = false) :=
   pointsForX_spec c h4 x hα
 
+/-! ## non-vacuity: a toy curve satisfying every hypothesis (y² = x³ + 3 over F₇, 13 points, G = (1, 2)) -/
+
+def toy7 : CurveParams := { p := 7, a := 0, b := 3, gx := 1, gy := 2, n := 13 }
+
+instance good_toy7 : Good toy7 := Good.of_int toy7 (by decide) (by decide)
+
+example : containsPoint toy7 (some (1, 2)) = true ∧ containsPoint toy7 (some (8, -2)) = true ∧ toy7.p % 4 = 3 := by decide
+#guard add toy7 (some (1, 2)) (some (8, -2)) matches .ok none            -- P + (−P), unreduced operand
+#guard add toy7 (some (1, 2)) (some (1, 9)) matches .ok (some (6, 3))    -- doubling through x₀ ≡ x₁, unreduced
+#guard multiply toy7 (some (1, 2)) 13 matches .ok none
+#guard multiply toy7 (some (1, 2)) (-1) matches .ok (some (1, 5))
+#guard multiply { toy7 with n := 0 } (some (1, 2)) (-1) matches .error .assertion
+#guard pointsForX toy7 1 matches .ok (some (1, 2), some (1, 5))
+#guard pointsForX toy7 0 matches .error .noSuchPoint
+
 end Pycoin.Curve
 
 /-! ## (e) the shipped curves: primality by Pratt certificates, order of the generator by evaluation -/
@@ -198,5 +213,29 @@ theorem C02_order_subgroup_secp256r1 (k : Int) :
 theorem C02_order_subgroup_bls12_381 (k : Int) :
     (bls12_381.n : Int) • (k • toPoint bls12_381 (basis bls12_381)) = 0 := by
   rw [smul_comm, order_G_bls12_381, zsmul_zero]
+
+/-- REFUTED on BLS12-381 G1 (known finding `bls12-381-cofactor`): the curve has a cofactor, the point `(0, 2)` lies on
+it and `r • (0, 2) ≠ ∞`; so "order • P = ∞ for every curve point" is false there … -/
+theorem C02_order_all_points_bls12_381_refuted :
+    ¬ ∀ P : Pt, OnCurve bls12_381 P → (bls12_381.n : Int) • toPoint bls12_381 P = 0 :=
+  fun h => order_not_all_points_bls12_381 (h (some (0, 2)) cofactor_point_on_curve_bls12_381)
+
+/-- … and `Curve.multiply`, which reduces the scalar modulo the order first, returns infinity for `r * (0, 2)`:
+it does not compute `e • P` for every curve point of this curve (replayed on the implementation by the corpus) -/
+theorem C02_multiply_all_points_bls12_381_refuted :
+    ¬ ∀ (P : Pt) (e : Int), OnCurve bls12_381 P →
+        ∃ R, multiply bls12_381 P e = .ok R ∧ toPoint bls12_381 R = e • toPoint bls12_381 P := by
+  intro h
+  obtain ⟨R, h1, h2⟩ := h (some (0, 2)) bls12_381.n cofactor_point_on_curve_bls12_381
+  have hm : multiply bls12_381 (some (0, 2)) bls12_381.n = .ok none := by
+    unfold multiply
+    have hz : Pycoin.fmod (bls12_381.n : Int) (bls12_381.n : Int) = 0 := by
+      rw [fmod_natCast]; exact Int.emod_self
+    have hn : bls12_381.n ≠ 0 := by decide +kernel
+    simp [hn, hz]
+  rw [hm] at h1
+  cases h1
+  rw [toPoint_none] at h2
+  exact order_not_all_points_bls12_381 h2.symm
 
 end Pycoin.Gen.Curves
